@@ -533,6 +533,29 @@ def run(tier, seed):
                 z = [s for s in cd.insts() if s.op == "store" and const_val(s.ops[0]) == 0 and is_const(s.ops[0]) and
                      M.match(("gep", ("param", 1), [off]), s.ops[1], {}) is not None]
                 rep.check(rid, len(z) >= 1, "data[%d] = 0" % off, cd.file, None, function=cd.cname, obj="zero%d" % off)
+            # ... and each of them on EVERY path to a successful return: a flag set only for some values of the stored word leaves the other
+            # headers without the comparison R2 relies on
+            Fc = ctx.facts(cd)
+
+            def skippable(st):
+                cut = {(st.block.id, x) for x in cd.blocks[st.block.id].succs}
+                for v_, pb_, b_ in success_edges(Fc, cd):
+                    tgt = pb_ if pb_ is not None else b_
+                    if st.block.id == tgt:
+                        continue
+                    if Fc.reaches_avoiding(0, tgt, cut) and st.block.id != 0:
+                        return (pb_, b_)
+                return None
+            fl = [s_ for s_ in stores_to_field(mod, HDR, "extra_flags", [cd])
+                  if M.match(("bin", "or", hdr_field("extra_flags", ("param", 0)), COMMON_CRC_FLAG), s_.ops[0], {}) is not None]
+            zs = [s_ for s_ in cd.insts() if s_.op == "store" and is_const(s_.ops[0]) and const_val(s_.ops[0]) == 0 and
+                  any(M.match(("gep", ("param", 1), [off]), s_.ops[1], {}) is not None for off in (0, 1))]
+            for what, group in (("extra_flags |= LHA_FILE_COMMON_CRC", fl), ("common_crc = ...", stores_to_field(mod, HDR, "common_crc", [cd]))):
+                # (skipping the zeroing can only make a valid header fail its comparison: not a matter for this property)
+                for st in group:
+                    sk = skippable(st)
+                    rep.check(rid, sk is None, "%s happens on every path to a successful return" % what, st.where(),
+                              None if sk is None else "the successful return via %s -> %s is reachable without this store" % sk, function=cd.cname, obj="always:" + what[:12])
             # the bytes zeroed are inside the header's raw data: the decoder is handed a pointer into raw_data
             # (decode_extended_headers passes ext_header + 1) - checked in R4e below.
 
